@@ -70,6 +70,7 @@ type Exec struct {
 	entryState *State
 	sentinels  map[string]bool
 	boxed      map[*Term]Value
+	reveal     map[string]bool
 }
 
 func NewExec(P *Program, S *Specs, key string) *Exec {
